@@ -315,7 +315,7 @@ impl Prop for C20 {
         let max = tier.pick(20, 64);
         (
             0..6_u8,
-            prop_oneof![3 => prop::sample::select(vec![8_usize, 9, 11, 16]), 7 => 1_usize..=max],
+            prop_oneof![3 => prop::sample::select(vec![8_usize, 9, 11, 16, 8, 9, 11, 16, 65, 66]), 7 => 1_usize..=max],
             vec(((any::<u16>(), any::<u16>()), -9..9_i64), 0..=40),
             (0..6_u8, 0..6_u8),
             vec((any::<u16>(), any::<u16>()), 0..=8),
